@@ -48,8 +48,10 @@ Reset == /\ IsKind("reset")
 
 Flush(id) ==
   LET ws == SetToSeq(DOMAIN W)
+      \* with several Watchers in the scenario a wrong event stream also contradicts C14 (independence of other Watchers)
+      Props(p) == IF Cardinality(DOMAIN W) > 1 /\ p \cap {"C01", "C02", "C03", "C08", "C11"} # {} THEN p \cup {"C14"} ELSE p
       perW == [k \in 1..Len(ws) |-> [b \in 1..Len(W[ws[k]].bad) |->
-                  [id |-> id, w |-> ws[k], props |-> W[ws[k]].bad[b].props, cause |-> W[ws[k]].bad[b].cause]]]
+                  [id |-> id, w |-> ws[k], props |-> Props(W[ws[k]].bad[b].props), cause |-> W[ws[k]].bad[b].cause]]]
       glob == [b \in 1..Len(g.gbad) |-> [id |-> id, w |-> "", props |-> g.gbad[b].props, cause |-> g.gbad[b].cause]]
   IN FlattenSeq(perW) \o glob
 
@@ -76,12 +78,12 @@ New == /\ IsKind("new")
        /\ UNCHANGED seq /\ Next1
 
 \* ---- filesystem step: the kernel records it produced -----------------------
-ApplyAll(ws, recs, base, maxq) ==
+ApplyAll(ws, recs, base, maxq, unordered) ==
   IF recs = <<>> THEN ws
-  ELSE FoldLeft(LAMBDA acc, k : ApplyRec(acc, recs[k], base + k, maxq), ws, [k \in 1..Len(recs) |-> k])
+  ELSE FoldLeft(LAMBDA acc, k : ApplyRec(acc, recs[k], base + k, maxq, unordered), ws, [k \in 1..Len(recs) |-> k])
 
 Fs == /\ IsKind("fs")
-      /\ W' = [w \in DOMAIN W |-> ApplyAll(W[w], Line.shadow, seq, g.maxq)]
+      /\ W' = [w \in DOMAIN W |-> ApplyAll(W[w], Line.shadow, seq, g.maxq, Line.op = "par")]
       /\ seq' = seq + Len(Line.shadow)
       /\ g' = IF \E k \in 1..Len(Line.shadow) : Line.shadow[k].ino \in {"?", "overflow"}
               THEN Infra("shadow record without object") ELSE g
